@@ -31,6 +31,12 @@ template <class A> void dump_arr(std::vector<i128> &v, A &a) {
     typename A::const_mdspan_type cmv = ca;            // conversion operator (const)
     typename A::mdspan_type mv2 = a;                    // conversion operator (non-const)
     ok = ok && (cmv.data_handle() == ca.data()) && (cmv.mapping() == a.mapping()) && (mv2.data_handle() == a.data()) && (mv2.mapping() == a.mapping());
+    auto cmv2 = ca.to_mdspan();                         // to_mdspan() const
+    ok = ok && (cmv2.data_handle() == ca.data()) && (cmv2.mapping() == a.mapping());
+    auto mv3 = a.to_mdspan(Kokkos::default_accessor<typename A::element_type>());   // with an accessor argument, non-const and const
+    auto cmv3 = ca.to_mdspan(Kokkos::default_accessor<const typename A::element_type>());
+    ok = ok && (mv3.data_handle() == a.data()) && (mv3.mapping() == a.mapping()) && (cmv3.data_handle() == ca.data()) && (cmv3.mapping() == a.mapping());
+    static_assert(std::is_same<decltype(cmv2), typename A::const_mdspan_type>::value && std::is_same<decltype(mv), typename A::mdspan_type>::value, "to_mdspan types");
     ok = ok && (a.is_unique() == a.mapping().is_unique()) && (a.is_exhaustive() == a.mapping().is_exhaustive()) && (a.is_strided() == a.mapping().is_strided())
             && (A::is_always_unique() == A::mapping_type::is_always_unique()) && (A::is_always_exhaustive() == A::mapping_type::is_always_exhaustive());
   }
